@@ -2,7 +2,7 @@
    ExprGenProperties.v.  Each theorem is closed by `exact <lemma>` and followed by Print Assumptions. *)
 From Coq Require Import List NArith Bool.
 From Coq Require Import ZArith.
-From MW Require Import Common.Str C03.Model C04.Model C04.Proofs C04.ProofsEq C04.ProofsNum.
+From MW Require Import Common.Str C03.Model C04.Model C04.Proofs C04.ProofsEq C04.ProofsNum C04.ProofsWs.
 Import ListNotations.
 
 (* C04_eval_correct (DESIGN.md): for every universe (cyclic or not) on which the reference semantics is defined
@@ -236,3 +236,49 @@ Example C04_example_exponent_numbers :
   maybe_numeric_compare s_5em1 s_p5 = true /\ maybe_numeric_compare s_1e3 s_5em1 = false.
 Proof. exact exponent_examples. Qed.
 Print Assumptions C04_example_exponent_numbers.
+
+(* ------------------------------------------------------------------ interior white space of compared values (ProofsWs.v)
+   Parser._strip_ws (parser.py:105-117, Model.v strip_ws_node) builds the comparison value of #switch and the condition of #if
+   from the parsed tuple.  Whatever the tuple is, it returns pre ++ middle ++ post where the middle - every element strictly
+   between the first and the last - is kept verbatim and in order, and only the first / the last element may be dropped (when
+   it is a white-space-only string): the blank or newline BETWEEN two parameters or calls ({{{1}}} {{{2}}}) is never removed at
+   parse time, so C04_eval_correct's trim-at-both-ends semantics is what the parse feeds. *)
+Theorem C04_strip_ws_keeps_interior : forall a m z,
+  exists pre post,
+    strip_ws_node (NSeq (a :: m ++ [z])) = NSeq (pre ++ m ++ post) /\
+    (pre = [a] \/ pre = []) /\ (post = [z] \/ post = []).
+Proof. exact strip_ws_front_back. Qed.
+Print Assumptions C04_strip_ws_keeps_interior.
+
+(* and a tuple whose ends are not white-space-only strings comes back unchanged *)
+Theorem C04_strip_ws_identity_without_blank_ends : forall l,
+  (match l with NStr s :: _ => is_blank s = false | _ => True end) ->
+  (match rev l with NStr s :: _ => is_blank s = false | _ => True end) ->
+  strip_ws_node (NSeq l) = NSeq l.
+Proof. exact strip_ws_identity. Qed.
+Print Assumptions C04_strip_ws_identity_without_blank_ends.
+
+(* non-vacuity on both sides: t2 = "{{#switch: {{{1}}} {{{2}}} |a b=spaced|ab=joined|#default=other}}", t3 = "x", t4 = "y",
+   t5 = "{{#switch:{{t3}}<newline>{{t4}}|xy=glued|x<newline>y=apart}}", t6 = "{{#ifeq:{{{1}}} {{{2}}}|a b|same|different}}";
+   the page "{{t2|a|b}}/{{t2|ab|}}/{{t2|x|y}}/{{t5}}/{{t6|a|b}}/{{t6|ab|}}" satisfies the hypotheses of C04_eval_correct and both
+   the reference semantics and the model of the implementation compute "spaced/joined/other/apart/same/different". *)
+Example C04_example_interior_white_space :
+  wfl exw_page = true /\ forallb (fun t => wfl (snd t)) exw_u = true /\ dn_ok [default_key] /\
+  evals 10 exw_u [] exw_page = Some exw_out /\
+  impl_expand exw_u [default_key] 100 exw_page = Ok exw_out.
+Proof. exact example_interior_ws_program. Qed.
+Print Assumptions C04_example_interior_white_space.
+
+(* Why the interior matters (refutation of the simplification "delete every white-space-only string of the tuple"): for
+   t5 = {{#switch:{{t3}}<newline>{{t4}}|xy=glued|x<newline>y=apart}} (t3 = x, t4 = y) the parse with the real helper is what `compile`
+   says, the reference semantics and the model of the implementation return "apart", and the same model on the parse with the
+   simplified helper returns "glued": a parser that drops interior white space violates C04 (found concretely by the check's
+   ws_family / gen_seq programs on the real code). *)
+Theorem C04_strip_every_blank_string_refuted :
+  swap_value strip_ws_node (compile exw_switch) = compile exw_switch /\
+  evals 10 exw_u [] [exw_switch] = Some [97;112;97;114;116]%N /\
+  expand (tpl_of exw_u) (fun _ => false) (fun _ _ => MDone []) [default_key] 100 (compile exw_switch) = Ok [97;112;97;114;116]%N /\
+  expand (tpl_of exw_u) (fun _ => false) (fun _ _ => MDone []) [default_key] 100 (swap_value strip_ws_all_node (compile exw_switch))
+    = Ok [103;108;117;101;100]%N.
+Proof. exact strip_all_blank_strings_refuted. Qed.
+Print Assumptions C04_strip_every_blank_string_refuted.
